@@ -1280,7 +1280,11 @@ func TestGen(t *testing.T) {
 		if err != nil {
 			t.Fatal(err)
 		}
-		h := History{ID: 0, Kind: "replay", Nodes: replay.Nodes, Fifo: replay.Fifo, Off: replay.Off, Expect: replay.Expect, CmpMix: replay.CmpMix, Byz: replay.Byz}
+		kind := replay.Kind // keep the kind of the replayed history: the monitors that apply depend on it
+		if kind == "" {
+			kind = "replay"
+		}
+		h := History{ID: 0, Kind: kind, Nodes: replay.Nodes, Fifo: replay.Fifo, Off: replay.Off, Expect: replay.Expect, CmpMix: replay.CmpMix, Byz: replay.Byz}
 		replayEvents(t, &h, replay.Events)
 		if err := hx.WriteJSON("qbft_traces.json", []History{h}); err != nil {
 			t.Fatal(err)
